@@ -30,9 +30,23 @@ class Hist:
         self.fns = []
         self.n = 0
         self.hidden = None
+        self.used_builtin_names = set()
+        self.nullvars = []
+
+    BUILTIN_LIKE = ["last", "first", "len", "get", "str", "sort", "time", "rest", "chars", "round"]   # (not push / puts: the probes call them)
 
     def fresh(self, p):
         self.n += 1
+        r = self.rnd.random()
+        if p in ("v", "f") and r < 0.12:
+            # a user binding may carry the name of a builtin function: from then on the name is the user's
+            cands = [b for b in self.BUILTIN_LIKE if b not in self.used_builtin_names]
+            if cands:
+                b = self.rnd.choice(cands)
+                self.used_builtin_names.add(b)
+                return b
+        if p == "v" and r < 0.24:
+            return "%s%d" % (self.rnd.choice(["quit", "quits", "quit_"]), self.n)      # only the whole line "quit" quits
         return "%s%d" % (p, self.n)
 
     def e_int(self, d=2):
@@ -62,6 +76,22 @@ class Hist:
             if rnd.random() < 0.4:
                 stmts = [obs(I(999)), let(self.fresh("w"), I(1))] + stmts
             return "stmts", stmts, None
+        if r < 0.13 and False:
+            pass
+        if 0.22 <= r < 0.25:
+            # definitions whose value is null: a null literal, a call that returns null, an initialiser that fails at
+            # run time (the name then stays out of later lines: whether it is bound is not settled)
+            k = rnd.randrange(3)
+            name = self.fresh("n")
+            if k == 0:
+                self.nullvars.append(name)
+                return "stmts", [let(name, lit({"k": "null"}))], None
+            if k == 1:
+                self.nullvars.append(name)
+                return "stmts", [let(name, call("puts", lit(vstr("."))))], None
+            return "stmts", [let(self.fresh("z"), bin_("/", self.e_int(1), I(0)))], None
+        if 0.25 <= r < 0.27 and self.nullvars:
+            return "stmts", [obs(bin_("==", ident(rnd.choice(self.nullvars)), lit({"k": "null"})))], None
         if r < 0.30:
             # rejected by the compiler after it has already entered nested scopes and made definitions there:
             # inside a block / if / loop body, a named function's body, an anonymous function
